@@ -1287,7 +1287,7 @@ func TestVerifC15NftablesSync(t *testing.T) {
 	defer func() { _ = os.Setenv("PATH", oldPath) }()
 
 	rec := ev.New("C15", "nftables",
-		"rapid state machine over felix/nftables.NftablesTable (driven through the filter/nat/raw/mangle TableLayer facades, IPv4 or IPv6) on knftables.Fake wrapped with a change log, fault injection and the kernel's in-use check: starting kernel with other tables of both families (kube-proxy, iptables-nft 'filter' with cali- chains, the other family's calico table, firewalld) and, in Felix's table, leftovers of an earlier Felix (stale chains jumping to each other, base chains with old hook rules or missing, same-named chains with other content, stale verdict maps pointing at stale chains, foreign-named chains), optionally the state a previous real Table programmed; ops UpdateChain(s)/RemoveChainByName/RemoveChains/InsertOrAppendRules/AppendRules/AddOrReplaceMap/RemoveMap, Apply, clock advance, edits by another program (delete/insert/reorder/re-comment a rule, flush/delete/create a chain, map element edits, delete the table; between ops or racing between Felix's read and write), injected transaction failures (incl. fail n times, killed after commit) and list failures, InvalidateDataplaneCache, restart. Non-trivial = a verified Apply that follows >=1 injected failure or foreign edit, from a start with other tables or leftovers; distinct = op-kind sequence",
+		"rapid state machine over felix/nftables.NftablesTable (driven through the filter/nat/raw/mangle TableLayer facades, IPv4 or IPv6) on knftables.Fake wrapped with a change log, fault injection and the kernel's in-use check: starting kernel with other tables of both families (kube-proxy, iptables-nft 'filter' with cali- chains, the other family's calico table, firewalld) and, in Felix's table, leftovers of an earlier Felix (stale chains jumping to each other, base chains with old hook rules or missing, same-named chains with other content, stale verdict maps pointing at stale chains, foreign-named chains), optionally the state a previous real Table programmed; ops UpdateChain(s)/RemoveChainByName/RemoveChains/InsertOrAppendRules/AppendRules/AddOrReplaceMap/RemoveMap, Apply, clock advance, busy periods (a tampered chain followed by unrelated update+Apply steps spaced below RefreshInterval whose total exceeds it), edits by another program (delete/insert/reorder/re-comment a rule, flush/delete/create a chain, map element edits, delete the table; between ops or racing between Felix's read and write), injected transaction failures (incl. fail n times, killed after commit) and list failures, InvalidateDataplaneCache, restart. Non-trivial = a verified Apply that follows >=1 injected failure or foreign edit, from a start with other tables or leftovers; distinct = op-kind sequence",
 		"desired state is consistent whenever handed to the Table (every referenced chain and map is defined, no jump loops, a chain is removed only when nothing refers to it), as the Table API requires",
 		"other programs do not forge Felix's rule-hash comments (that is how Felix recognises that a chain is unchanged)",
 		"rule text is opaque to the kernel model except for jump/goto targets and @set/@map references; a transaction that would leave such a reference dangling is refused atomically",
@@ -1721,9 +1721,64 @@ func TestVerifC15NftablesSync(t *testing.T) {
 				h.apply("A")
 			},
 			"advanceTime": func(t *rapid.T) {
-				d := rapid.SampledFrom([]time.Duration{10 * time.Millisecond, time.Second, 15 * time.Second, 2 * time.Minute, 3 * time.Hour}).Draw(t, "by")
+				d := rapid.SampledFrom([]time.Duration{10 * time.Millisecond, time.Second, 15 * time.Second, 2 * time.Minute, 3 * time.Hour, -3, -2}).Draw(t, "by")
+				if d < 0 { // a fraction of the refresh interval
+					d = h.refresh / -d
+				}
 				k.now = k.now.Add(d)
 				h.ops = append(h.ops, "t")
+			},
+			"busyTable": func(t *rapid.T) {
+				// Another program tampers with a chain Felix is not updating; Felix then keeps
+				// writing unrelated updates at intervals shorter than RefreshInterval whose total
+				// exceeds it.  The periodic refresh must still happen (counted from the last
+				// complete READ of the table, however many writes lie in between) and repair the
+				// tampered chain.
+				if h.refresh == 0 {
+					t.Skip("no refresh interval")
+				}
+				const busy = "mangle-POSTROUTING"
+				k.runFaults, k.beforeRun = nil, nil
+				k.listAllFaults, k.listRulesFaults, k.listElemFaults = 0, 0, 0
+				if !h.apply("A") {
+					return
+				}
+				var cands []string
+				for _, c := range chainsInKernel() {
+					if c != busy {
+						cands = append(cands, c)
+					}
+				}
+				if len(cands) == 0 {
+					return
+				}
+				target := rapid.SampledFrom(cands).Draw(t, "tamperedChain")
+				if !k.external(func(tx *knftables.Transaction) {
+					tx.Add(&knftables.Rule{Chain: target, Rule: "ip saddr 10.99.0.0/16 counter accept"})
+				}) {
+					return
+				}
+				h.sinceGoodFaults++
+				h.ops = append(h.ops, "B")
+				steps := rapid.IntRange(4, 6).Draw(t, "busySteps")
+				for i := 0; i < steps; i++ {
+					k.now = k.now.Add(h.refresh / 3)
+					next := h.model.clone()
+					if len(next.appends[busy]) == 0 {
+						next.appends[busy] = []c15nRuleSpec{{Match: 2 + i%2, Action: 0}}
+					} else {
+						next.appends[busy] = nil
+					}
+					h.model = next
+					h.layers["mangle"].AppendRules(c15nLocal(busy), h.buildRules(next.appends[busy], "mangle", false))
+					if !h.apply("A") {
+						return
+					}
+				}
+				if k.extDirty {
+					h.fail("chain %s, tampered with %v ago, was never re-read although Felix applied %d updates spaced %v apart with RefreshInterval %v", target, time.Duration(steps)*(h.refresh/3), steps, h.refresh/3, h.refresh)
+				}
+				h.classes["busy-table-past-refresh-interval"] = true
 			},
 			"externalEdit": func(t *rapid.T) {
 				e := pickEdit(t)
